@@ -12,6 +12,7 @@ Decided (structural, necessary conditions; DESIGN.md section 5 / C10):
          OK_SCAN_CONTINUE) or a fresh, validated lookup of the layer's link in the upper layers found it gone
          (iscan_findnext: null result of a link-resolving descent); a stale version flag of the *saved* layer root is
          not such evidence (root split / interior root collapse leave the layer populated)
+  R-LROOT  the layer root saved in a stack element is the root its border was found from (iscan_findfirst / findnext)
   R-STALE  locals of iscan_findnext copied from the stack top are not used after the stack changed (pop / push) unless
          they were re-read from the new stack top
 """
@@ -608,6 +609,58 @@ def rule_layer(S):
     S.require('R-POP', 'stack_pop sites of iscan_next', len(npop), 1)
 
 
+def rule_lroot(S):
+    """R-LROOT: ctx->stack(key, layer_root, border, ...) saves the root the border was found from (finding F8)."""
+    facts = S.facts()
+    S.rule('R-LROOT', 'iscan_findfirst / iscan_findnext: at every ctx->stack(key, layer_root, border, ...) the layer_root '
+                      'argument is the variable that was the root argument of the last find_border call on the path and '
+                      'has not been assigned since (the saved root is what retry_from_root re-descends from)')
+    n = 0
+    for q in ('iscan_findfirst', 'iscan_findnext'):
+        f = facts.one(Y + q)
+        sites = {}
+
+        def step(ctx, nd, st):
+            last, dirty = st
+            if is_call(nd, cq=Y + 'find_border'):
+                a = call_args(f, nd)
+                return (root_var(f, a[0]) if a else None, False)
+            if nd['k'] == 'BinaryOperator' and nd.get('op') == '=':
+                if last is not None and root_var(f, f.ch(nd)[0]) == last and \
+                        f.strip(f.ch(nd)[0], casts=True)['k'] == 'DeclRefExpr':
+                    return (last, True)
+            if nd['k'] == 'DeclStmt' and last is not None and any(v['id'] == last for v in nd.get('vars', [])):
+                return (None, False)
+            if is_call(nd, cq=Y + 'iscan_context::stack'):
+                a = call_args(f, nd)
+                e = sites.setdefault('push at ' + short_loc(nd), {'ok': True, 'loc': short_loc(nd), 'path': None, 'why': ''})
+                rv = root_var(f, a[1]) if len(a) > 1 else None
+                why = None
+                if last is None:
+                    why = 'no find_border call precedes the push on this path'
+                elif rv != last:
+                    why = 'the saved layer root (%s) is not the root of the last find_border call (%s)' % (
+                        vname(rv) if rv else '?', vname(last))
+                elif dirty:
+                    why = 'the root variable %s was assigned after the find_border call that found the border: the ' \
+                          'element names another layer' % vname(last)
+                if why and e['ok']:
+                    e['ok'] = False
+                    e['why'] = why
+                    e['path'] = ctx.witness()
+                return st
+            if nd['k'] == 'ReturnStmt':
+                return None
+            return st
+
+        Explorer(f, step, None).run((None, False))
+        for site, e in sorted(sites.items()):
+            n += 1
+            S.ob('R-LROOT', f.qname, site, e['ok'], 'the element saves the root its border was found from' if e['ok']
+                 else e['why'], loc=e['loc'], path=e['path'])
+    S.require('R-LROOT', 'pushes of cursor stack elements', n, 5)
+
+
 def rule_eq(S):
     """iscan_check_retry: the cursor's validation primitive (sibling of scan_check_retry, C06 R-EQ)."""
     facts = S.facts()
@@ -687,4 +740,5 @@ def run(S):
     rule_cb(S)
     rule_res(S)
     rule_layer(S)
+    rule_lroot(S)
     rule_eq(S)
